@@ -242,6 +242,7 @@ func runRoundTrips(r *gen.R, t *gen.Trace, cdc *codec.Codec, d *dumper, n int) {
 	runParams(r, t, cdc, 40+n/12)
 	runBigText(r, t, 60+n/10)
 	runMapStability(r, t, cdc, d, 36+n/40)
+	runCrossHeights(r, t, cdc, d, 72+n/40)
 	es := registry()
 	for i := 0; i < n; i++ {
 		e := es[i%len(es)]
